@@ -145,6 +145,7 @@ def _check_com(ctx, case):
     )
     classes = [
         "kind:com",
+        _scale_class(case),
         "pattern:" + case["pattern"],
         "dtype:" + case["dtype"],
         "fit:" + fit,
@@ -235,6 +236,7 @@ def _check_bigcom(ctx, case):
         H != W and arr.size >= 2**19,
         [
             "kind:bigcom",
+            _scale_class(case),
             "bigcom_size:" + case["near"],
             "bigcom_values>=2^%d" % int(np.floor(np.log2(arr.size))),
             "mask:" + (case["mask"]["type"] if case["mask"] else "none"),
@@ -390,24 +392,37 @@ def _check_shift(ctx, case):
             "origins:" + ("single" if len(origins) == 1 else "per_pattern"),
             "batch_nondividing" if nondividing else "batch_dividing_or_default",
             "nonsquare" if H != W else "square",
+            "target:" + ("corner" if not any(case.get("coordinate", [0, 0])) else "other_pixel"),
+            _scale_class(case),
         ],
     )
     with ctx.sut(case, "CenterOfMassOriginModel.from_dataset"):
         ds = Dataset4dstem.from_array(arr.copy(), units=list(UNITS))
         om = Origin.from_dataset(ds, device="cpu")
-    with ctx.sut(case, "shift_origin_to((0, 0), max_batch_size=%r, mode=%r)" % (bs, case["mode"])):
+    coord = tuple(int(v) for v in case.get("coordinate", [0, 0]))
+    with ctx.sut(case, "shift_origin_to(%r, max_batch_size=%r, mode=%r)" % (coord, bs, case["mode"])):
         om.origin_fitted = torch.tensor(np.asarray(origins, dtype=np.float32))
-        om.shift_origin_to((0, 0), max_batch_size=bs, mode=case["mode"])
+        om.shift_origin_to(coord, max_batch_size=bs, mode=case["mode"])
         shifted = om.shifted_tensor
-    err = _judge_roll(case, "shift_origin_to((0,0))", shifted, arr, full)
+    err = _judge_roll(case, "shift_origin_to(%r)" % (coord,), shifted, arr, full, coord)
     ctx.extra["max_roll_err_rel"] = max(ctx.extra.get("max_roll_err_rel", 0.0), err)
     ctx.extra["max_roll_err_rel_per_px"] = max(ctx.extra.get("max_roll_err_rel_per_px", 0.0), err / max(H, W))
 
 
-def _judge_roll(case, what, shifted, arr, full):
-    """shifted (a,b,H,W) must be every pattern of arr rolled so that its integer origin lands on [0,0]."""
+def _scale_class(case):
+    if "scale_pow2" in case:
+        sc = 2.0 ** int(case["scale_pow2"])
+    else:
+        sc = float(case.get("scale", 1.0))
+    return "intensity_scale:" + ("<=1e-6" if sc <= 1.0001e-6 else ">=1e6" if sc >= 0.9999e6 else "1e-5..1e5")
+
+
+def _judge_roll(case, what, shifted, arr, full, coord=(0, 0)):
+    """shifted (a,b,H,W) must be every pattern of arr circularly rolled so that its integer origin
+    lands on the integer target pixel `coord` (the detector corner by default)."""
     a, b, H, W = arr.shape
     n = a * b
+    full = [[int(r) - int(coord[0]), int(c) - int(coord[1])] for r, c in full]  # net displacement
     s = _np64(shifted)
     if s.shape != (a, b, H, W):
         raise core.Violation("%s: shifted_tensor has shape %s, expected %s" % (what, s.shape, (a, b, H, W)), case)
@@ -419,7 +434,7 @@ def _judge_roll(case, what, shifted, arr, full):
         k = int(np.argmax(np.abs(np.nan_to_num(s, nan=np.inf) - exp).reshape(n, -1).max(axis=1)))
         raise core.Violation(
             "%s with integer origins is not the circular roll: max error %.3g of max intensity "
-            "(tolerance %.1e); detector %dx%d, worst pattern %d with origin %s" % (what, err, tol_roll, H, W, k, full[k]),
+            "(tolerance %.1e); detector %dx%d, worst pattern %d with origin minus target = %s" % (what, err, tol_roll, H, W, k, full[k]),
             case,
         )
     return err
@@ -469,6 +484,7 @@ def _check_ohist(ctx, case):
     measured = None  # None | ("surface", zr, zc, kind) | ("other",)
     fitted_int = None  # integer origins currently stored in origin_fitted, else None
     had_identity_shift = False
+    used_other_target = False  # some earlier shift / forward used a target other than the corner
     for i, st_ in enumerate(steps):
         op = st_["op"]
         tag = "step %d/%d %s" % (i + 1, len(steps), op)
@@ -531,19 +547,55 @@ def _check_ohist(ctx, case):
             if fitted_int is None:
                 ctx.count("ohist_skipped:shift_without_integer_origin")
                 continue
-            with ctx.sut(case, tag + "(max_batch_size=%r, mode=%r)" % (st_["batch"], st_["mode"])):
-                om.shift_origin_to((0, 0), max_batch_size=st_["batch"], mode=st_["mode"])
+            coord = tuple(int(v) for v in st_.get("coordinate", [0, 0]))
+            with ctx.sut(case, tag + "(%r, max_batch_size=%r, mode=%r)" % (coord, st_["batch"], st_["mode"])):
+                om.shift_origin_to(coord, max_batch_size=st_["batch"], mode=st_["mode"])
                 sh = om.shifted_tensor
-            _judge_roll(case, "%s: shift_origin_to of the data the model currently holds (version %d)" % (tag, cur), sh, versions[cur].astype(np.float32), fitted_int)
+            _judge_roll(case, "%s: shift_origin_to(%r) of the data the model currently holds (version %d)" % (tag, coord, cur), sh, versions[cur].astype(np.float32), fitted_int, coord)
             ctx.count("ohist_judged:shift")
-            identity = not any(r or c for r, c in fitted_int)
+            if any(coord):
+                ctx.count("ohist_judged:shift_to_other_pixel")
+                used_other_target = True
+            elif used_other_target:
+                ctx.count("ohist_judged:corner_shift_after_other_target")
+            identity = not any((r - coord[0]) or (c - coord[1]) for r, c in fitted_int)
             if identity:
                 ctx.count("ohist_judged:identity_shift")
             elif had_identity_shift:
                 ctx.count("ohist_judged:shift_after_identity_shift")
             had_identity_shift = had_identity_shift or identity
+        elif op == "forward":
+            coord = tuple(int(v) for v in st_["coordinate"])
+            with ctx.sut(case, tag + "(max_batch_size=%r, fit_method=%r, shift_to_origin=%r, origin_coordinate=%r)" % (st_["batch"], st_["method"], st_["shift"], coord)):
+                # the orientation estimate is not this property (and needs >= 3x3 scans)
+                om.forward(
+                    max_batch_size=st_["batch"], fit_method=st_["method"], estimate_detector_orientation=False,
+                    shift_to_origin=st_["shift"], origin_coordinate=coord, mode=st_["mode"],
+                )  # fmt: skip
+                m = _np64(om.origin_measured)
+                f = _np64(om.origin_fitted)
+            if m.shape != (n, 2) or f.shape != (n, 2):
+                raise core.Violation("%s: origin_measured/origin_fitted shapes %s/%s" % (tag, m.shape, f.shape), case)
+            exp_r, exp_c = oracles[cur]
+            _judge_pair(
+                case,
+                "%s: origin_measured vs float64 oracle of the data the model currently holds (version %d)" % (tag, cur),
+                m[:, 0].reshape(a, b), m[:, 1].reshape(a, b), exp_r, exp_c, TOL_COM,
+            )  # fmt: skip
+            ctx.count("ohist_judged:measure")
+            pk = planar_kind(cur)
+            measured = ("surface", exp_r, exp_c, pk) if pk else ("other",)
+            fitted_int = None
+            if pk and (pk == "constant" or st_["method"] == "plane"):
+                _judge_pair(case, "%s: %s fit of measured origins that lie exactly on a %s" % (tag, st_["method"], pk), f[:, 0].reshape(a, b), f[:, 1].reshape(a, b), exp_r, exp_c, TOL_FIT32)
+                ctx.count("ohist_judged:fit")
+            if st_["shift"] and any(coord):
+                used_other_target = True
+                ctx.count("ohist_forward_to_other_pixel")
         else:
             raise ValueError("unknown op %r" % op)
+        if used_other_target and op == "measure":
+            ctx.count("ohist_judged:measure_after_other_target")
 
 
 # ------------------------------------------------------------------------------------------------
